@@ -21,7 +21,7 @@ func init() {
 	register(&Property{
 		Meta: report.Meta{
 			Property:    "C12",
-			Explanation: "Structural rules on selector.Parse / resolve: (R1) kind totality — for every segment literal that Parse can produce, the kind it intends (identity, iterator, field, slice, index) is derived from the fields it sets, and resolve's dispatch predicates, evaluated on the abstract values of exactly those fields (constants, regex-derived minimum lengths), must select that kind on every path; (R2) nothing ignored — inside the loop over ALL segments a return with a nil error returns a nil node, a non-nil node is returned only after the loop is exhausted and is the current node; (R3) optional discipline — every failure exit of the field and index cases goes through the optional idiom (errIfNotOptional or a branch on Optional()), other kinds fail with a non-nil error; (R4) slice operands — resolveSliceIndices receives the segment's slice and the length of the very collection that is then sliced; (R5) Select is resolve(selector, subject, nil). Index/slice arithmetic (Python clamping, negative indexes) is a numeric clause and is not decided. (R7) the index case of resolve evaluated on a grid of (index, length) for lists and bytes against element i / length+i / failure; Node.Length() of a bytes node evaluates to -1. (R8) strconv conversions reachable from Parse in the package use base 10 and bit size 0 or 64. The loop stepping a MapIterator in resolve adds the value returned by Next on every step that does not fail. No Convert in package selector narrows a 64-bit integer; a loop computing n = n*c + d compares n (or the length of its text) with a constant. In the iterator case of resolve the cursor is left unchanged only on paths where its kind is known to be list. Each accessor of segment returns recv.<field> (or recv.<field>[:]) on its every path.",
+			Explanation: "Structural rules on selector.Parse / resolve: (R1) kind totality — for every segment literal that Parse can produce, the kind it intends (identity, iterator, field, slice, index) is derived from the fields it sets, and resolve's dispatch predicates, evaluated on the abstract values of exactly those fields (constants, regex-derived minimum lengths), must select that kind on every path; (R2) nothing ignored — inside the loop over ALL segments a return with a nil error returns a nil node, a non-nil node is returned only after the loop is exhausted and is the current node; (R3) optional discipline — every failure exit of the field and index cases goes through the optional idiom (errIfNotOptional or a branch on Optional()), other kinds fail with a non-nil error; (R4) slice operands — resolveSliceIndices receives the segment's slice and the length of the very collection that is then sliced; (R5) Select is resolve(selector, subject, nil). Index/slice arithmetic (Python clamping, negative indexes) is a numeric clause and is not decided. (R7) the index case of resolve evaluated on a grid of (index, length) for lists and bytes against element i / length+i / failure; Node.Length() of a bytes node evaluates to -1. (R8) strconv conversions reachable from Parse in the package use base 10 and bit size 0 or 64. The loop stepping a MapIterator in resolve adds the value returned by Next on every step that does not fail. No Convert in package selector narrows a 64-bit integer; a loop computing n = n*c + d compares n (or the length of its text) with a constant. In the iterator case of resolve the cursor is left unchanged only on paths where its kind is known to be list. Each accessor of segment returns recv.<field> (or recv.<field>[:]) on its every path. (R4) every latch or success path of resolve that dispatched a slice segment contains a call of resolveSliceIndices.",
 			Assumptions: []string{"go-ipld-prime Node.Kind/Length/LookupBy* contracts", "regexp/syntax minimum-length computation is exact for the three regex constants"},
 			Trusted:     []string{"golang.org/x/tools/go/ssa v0.29.0", "regexp/syntax", "go-ipld-prime"},
 			NotDecided:  []string{"resolveSliceIndices arithmetic (clamping, negative indexes)", "negative index arithmetic in the index case", "values returned by go-ipld-prime lookups"},
@@ -56,7 +56,7 @@ func runC12(x *Ctx) {
 	x.C.Rule("C12.R1", "every segment literal produced by Parse is dispatched by resolve to the kind it intends; segment accessors return their field", 8)
 	x.C.Rule("C12.R2", "no early success return of a node inside the segment loop", 2)
 	x.C.Rule("C12.R3", "field and index cases fail through the optional idiom; siblings agree; a successful lookup is never dropped; iterator totality; the iterator is a no-op on lists only", 5)
-	x.C.Rule("C12.R4", "resolveSliceIndices gets the slice of the segment and the length of the collection sliced", 3)
+	x.C.Rule("C12.R4", "resolveSliceIndices gets the slice of the segment and the length of the collection sliced; no slice is resolved without it", 4)
 	x.C.Rule("C12.R5", "Select is resolve(selector, subject, nil)", 1)
 	x.C.Rule("C12.R6", "resolveSliceIndices computes Python's clamped slice on every region of (start, end, length)", 1)
 	x.C.Rule("C12.R7", "the index case of resolve: element i, or length+i for a negative i, failure outside the collection; numbers kept at full width", 3)
@@ -531,6 +531,33 @@ func sliceOperands(x *Ctx, res *ssa.Function, elem, cur string) {
 		strings.Join(lens, ";") == strings.Join(want, ";"), "lengths passed: "+strings.Join(lens, " ; "))
 	x.C.Obl("C12.R4", "operands:resolve", x.pos(res), "the slice passed is the segment's own; Go slice expressions use both resolved bounds on the collection whose length was passed", bad == "", bad)
 	x.C.Obl("C12.R4", "sites:resolve", x.pos(res), "three slicing sites (list, bytes, string)", len(seen) == 3, fmt.Sprintf("%d sites", len(seen)))
+	// and no slice is computed any other way: every iteration that dispatches a slice segment and goes on (or ends
+	// the resolution successfully) has resolved its bounds with resolveSliceIndices - a second, hand-written
+	// clamping for "the easy bounds" is a second definition of the slice arithmetic
+	nS, badS := 0, ""
+	for _, p := range ps {
+		if dispatchKind(p, elem) != "slice" {
+			continue
+		}
+		if p.End == paths.EndReturn {
+			if o, _ := p.ErrorOutcome(); o != paths.Success {
+				continue
+			}
+		} else if p.End != paths.EndLatch {
+			continue
+		}
+		nS++
+		through := false
+		for _, c := range p.Calls() {
+			if ct := p.Term(c); ct != nil && ct.Name == selPkg+"resolveSliceIndices" {
+				through = true
+			}
+		}
+		if !through {
+			badS += "a slice segment is resolved without resolveSliceIndices:\n" + p.String() + "\n"
+		}
+	}
+	x.C.Obl("C12.R4", "only-way:resolve", x.pos(res), fmt.Sprintf("each of the %d ways a slice segment is resolved goes through resolveSliceIndices", nS), badS == "" && nS >= 3, firstLines(badS, 14))
 }
 
 // lookupResults: in the field-on-map and index-on-list cases, an iteration that continues after a
